@@ -57,6 +57,9 @@ TEXTS = {
     "T-fail-parse": "def 0 { a(; }",
     "T-ssbscript": "//?: is-ssb-script: true\ndef 0 {\n    a(1);\n    @l;\n    Jump(@l);\n}\n",
     "T-coro": "coro A { a(); return; }\ncoro B { alias previous; }",
+    # explicit loop / case control statements at every nesting (per-compile handler stacks)
+    "T-loops": "def 0 { forever { a(); if ($V == 1) { continue; } switch ($S) { case 1: b(); break; case 2: while ($W == 2) { c(); if ($V == 3) { break_loop; } "
+               "for ($I = 0; $I < 3; $I += 1;) { d(); if ($V == 4) { continue; } e(); } } break; default: f(); break_loop; } g(); } end; }",
 }
 CALLS = [("decompile", k) for k in SETS] + [("compile", k) for k in TEXTS] + [("compile-reuse", k) for k in ("T-simple", "T-flow", "T-macro", "T-fail-break")]
 
